@@ -272,6 +272,19 @@ def fingerprint(root, bodies, S=None):
             dec["<analysis-error:%s>" % type(e).__name__] += 1
         for c, s in sig_calls:
             calls[call_entry(b, c, S)] += 1
+        # values of workspace types built here: struct / enum literals with the forms of their fields (MIR lists fields in declaration order)
+        for blk in b.blocks:
+            for st in blk["s"]:
+                rv = st[1]
+                if rv.get("k") == "agg" and rv.get("ak") == "adt" and str(rv.get("adt", "")).startswith("ckb_") and rv.get("ops"):
+                    if NOISE_CRATES.search(str(rv["adt"])):
+                        continue
+                    try:
+                        forms = [list(K.form(b, o)) for o in rv["ops"]]
+                    except Exception:
+                        forms = ["?"]
+                    name = "new:" + str(rv["adt"]).split("::")[-1] + (("::" + rv["variant"]) if rv.get("variant") and rv.get("variant") != str(rv["adt"]).split("::")[-1] else "")
+                    calls[jd([name, rv.get("fields") or [], forms])] += 1
     return {"dec": dict(dec), "calls": dict(calls)}
 
 
